@@ -1266,6 +1266,11 @@ func (o *Origins) load(u *ssa.UnOp) *Ex {
 				return o.caller.reaching(al, full, o.call, o.call.Block(), instrIndex(o.call))
 			}
 		}
+		// a struct handed in by pointer whose field the function itself writes before it reads it back (and does
+		// nothing else with the pointer): the read sees the written value
+		if _, isPtr := r.Type().Underlying().(*types.Pointer); isPtr && len(path) > 0 && o.onlyFieldAccess(r) && o.writesPath(r, path) {
+			return o.reaching(r, path, u, u.Block(), instrIndex(u))
+		}
 		// a scalar handed in by pointer (a counter, a flag) that the function itself writes: a read behind the
 		// write sees the written value. (Only for pointers to basic types: a struct behind a pointer is written by
 		// every method called on it, and the rules name its fields as atoms.)
@@ -1287,6 +1292,59 @@ func (o *Origins) load(u *ssa.UnOp) *Ex {
 		return res
 	}
 	return o.pathExpr(u.X)
+}
+
+// paramEntryContent: what the location path behind pointer parameter p holds when the function is entered.
+func (o *Origins) paramEntryContent(p *ssa.Parameter, path []pathElem) *Ex {
+	if o.caller != nil && o.call != nil && !o.call.Common().IsInvoke() && o.caller.Fn == o.call.Parent() {
+		for i, q := range o.Fn.Params {
+			if q != p || i >= len(o.call.Common().Args) {
+				continue
+			}
+			aroot, apath := addrRoot(o.call.Common().Args[i])
+			if al, ok := aroot.(*ssa.Alloc); ok && al.Parent() == o.caller.Fn {
+				full := append(append([]pathElem{}, apath...), path...)
+				return o.caller.reaching(al, full, o.call, o.call.Block(), instrIndex(o.call))
+			}
+		}
+	}
+	e := o.pathExpr(p)
+	for _, pe := range path {
+		if pe.field != "" {
+			e = project(e, pe.field)
+		}
+	}
+	return e
+}
+
+// onlyFieldAccess: the pointer parameter is used for field addresses that are loaded and stored, nothing else.
+func (o *Origins) onlyFieldAccess(p *ssa.Parameter) bool {
+	if p.Referrers() == nil {
+		return false
+	}
+	for _, r := range *p.Referrers() {
+		switch y := r.(type) {
+		case *ssa.FieldAddr:
+			if y.Referrers() == nil {
+				continue
+			}
+			for _, r2 := range *y.Referrers() {
+				switch z := r2.(type) {
+				case *ssa.Store:
+					if z.Addr != ssa.Value(y) {
+						return false
+					}
+				case *ssa.UnOp, *ssa.DebugRef:
+				default:
+					return false
+				}
+			}
+		case *ssa.UnOp, *ssa.DebugRef:
+		default:
+			return false
+		}
+	}
+	return true
 }
 
 // writesPath: the function stores through the pointer parameter into the location path (or a part / a whole
@@ -1559,7 +1617,7 @@ func (o *Origins) reaching(root ssa.Value, path []pathElem, at ssa.Instruction, 
 			case *ssa.FreeVar:
 				sources = append(sources, finish(o.capturedEntry(r, path), ovs))
 			case *ssa.Parameter:
-				sources = append(sources, finish(o.pathExpr(r), ovs))
+				sources = append(sources, finish(o.paramEntryContent(r, path), ovs))
 			default:
 				sources = append(sources, finish(mk("zero", "entry"), ovs))
 			}
